@@ -111,9 +111,13 @@ def impl(case):
     ro = capture(lambda: [out_num(Integrate.scalar(curve, None, "open-newton-cotes", p + 3))])
     exact = sum(P[i] * (U[i + p + 1] - U[i]) / (p + 1) for i in range(len(P)))
     bad = []
-    for method, nn in (("chebyshev", p + 1), ("gauss-legendre", p + 1), ("gauss-legendre", max(1, (p + 2) // 2))):
+    for method, nn in (("chebyshev", p + 1), ("gauss-legendre", p + 1), ("gauss-legendre", max(1, (p + 2) // 2)),
+                       ("chebyshev", None), ("gauss-legendre", None), ("closed-newton-cotes", p + 4),
+                       ("open-newton-cotes", None)):
+        if method == "closed-newton-cotes" and not case["closed"]:
+            continue
         try:
-            val = float(Integrate.scalar(curve, None, method, nn))
+            val = float(Integrate.scalar(curve, None, method, nn) if nn is not None else Integrate.scalar(curve, None, method))
             if abs(val - float(exact)) > 1e-9 * max(1.0, abs(float(exact))):
                 bad.append([method, nn, val, float(exact)])
         except Exception as e:  # noqa: BLE001
